@@ -499,7 +499,7 @@ pub mod unit {
                 *requirement_rule is CountOf, requirement_rule->CountOf_0 == *count, requirement_rule->CountOf_1 == *resources,
                 left >= 1,
                 left as nat + count_upto(old(api).st().env, *auth_zone, resources@, it.index@ as int) == *count as nat,
-        @before <<left -= 1>> #1
+        @before <<left -=>> #1
             proof { lemma_count_mono(old(api).st().env, *auth_zone, resources@, it.index@ + 1, resources@.len() as int); }
         @*/
 
@@ -540,9 +540,9 @@ pub mod unit {
                 ok_or_fault(old(api).st(), final(api).st(), ret),
                 ret matches Ok(res) ==> (res is Authorized <==> access_sat(old(api).st().env, *auth_zone,
                     applicable_rule(old(api).st().env, *role_assignment_of, key.module, key.key.key@))),
-        @after <<api.kernel_close_substate(handle)?>> #1
+        @before <<substate.into_value()>> #1
             proof { assert(api.st().handles =~= old(api).st().handles); }
-        @after <<api.kernel_close_substate(handle)?>> #2
+        @before <<.into_payload()>> #1
             proof { assert(api.st().handles =~= old(api).st().handles); }
         @*/
 
